@@ -52,7 +52,8 @@ def fake_case(rng, tier):
         before += b'\n'
     after = b''.join(rng.choice(NOISE) for _ in range(rng.choice([0, 0, 1, 2])))
     c = {'kind': 'fake', 'ran': ran, 'fails': fails, 'errs': errs, 'stdout': rng.choice(['', 'Running x tests:\n  Ran 1 tests\n', '...\n']),
-         'end': rng.choice(['exit0', 'exit0', 'exit3', 'kill', 'segv']), 'intact': True, 'before': before.hex(), 'after': after.hex(), 'cut': None}
+         'end': rng.choice(['exit0', 'exit0', 'exit3', 'kill', 'segv']), 'intact': True, 'before': before.hex(), 'after': after.hex(), 'cut': None,
+         'verbose': rng.choice(['', '', '-v', '-vv'])}
     r = rng.random()
     if r < 0.12:
         c['before'] = (before + rng.choice(LOOKALIKE)).hex()
@@ -83,6 +84,12 @@ def generate(rng, tier, rep):
             if cut > last_name_start and not char_boundary(repb, cut):
                 continue
             cases.append(dict(c, cut=cut, after='', intact=False))
+    # a child that dies without any report after writing undecodable bytes to stderr, with the parent showing the child's stderr (-v / -vv)
+    for k, end in enumerate(['exit0', 'exit3', 'kill', 'segv'][:{'quick': 4, 'thorough': 4, 'search': 1}[tier]]):
+        c, _ = fake_case(rng, 'quick')
+        c.update({'fails': [], 'errs': [], 'ran': 2, 'before': (b'\xff\xfe binary \x00\n' * (1 + k) + b'caf\xe9 latin-1\n').hex(), 'after': '', 'intact': False,
+                  'cut': 0, 'big': False, 'end': end, 'verbose': ['-v', '-vv'][k % 2]})
+        cases.append(c)
     # a complete report whose stderr pipe stays open (held by a grandchild) long after the child has exited
     for hold in {'quick': [12], 'thorough': [12, 31], 'search': []}[tier]:
         c, _ = fake_case(rng, 'quick')
@@ -109,7 +116,7 @@ def generate(rng, tier, rep):
 def world_of(c):
     layer = {'name': 'La', 'bases': [], 'kind': 'instance', 'hooks': {'setUp': ['ok'], 'tearDown': ['ok']}}
     if c['kind'] == 'fake':
-        return {'layers': [layer], 'tests': [{'layer': 0}], 'options': ['-j2'],
+        return {'layers': [layer], 'tests': [{'layer': 0}], 'options': ['-j2'] + ([c['verbose']] if c.get('verbose') else []),
                 'script_parts': [os.path.join(fw.HARNESS, 'fakechild.py')]}
     weird = ['we\rird\nname (x)', 'tëst \x0b vt', 'trailing blank ', 'two\r\nlines', 'x' * 200, '\x85 nel']
     w = {'layers': [layer], 'tests': [dict({'layer': 0, 'body': 'fail' if (c['bad'] and i == 0) else 'ok'},
